@@ -2,6 +2,7 @@ package main
 
 import (
 	"fmt"
+	"github.com/btcsuite/btcd/txscript"
 	"strconv"
 	"strings"
 )
@@ -121,6 +122,25 @@ func checkC02Sh(t *Toks) string {
 	d0 := c.digest()
 	if d0 == "panic" || d0 == "err" {
 		return fail(c.algo+".digest", d0)
+	}
+	// computing a digest is a read-only operation: the legacy digests of every input under SINGLE, NONE and ALL (the
+	// ones that work on a modified copy) and the serialization must leave this digest, and the transaction, as they were
+	{
+		before := dumpTx(c.tx)
+		for i := range c.tx.Inputs {
+			for _, ht := range []txscript.SigHashType{3, 0x83, 0x43, 2, 1} {
+				func() {
+					defer func() { _ = recover() }()
+					c.tx.HashForSignature(i, c.script, ht)
+				}()
+			}
+		}
+		if dumpTx(c.tx) != before {
+			return fail(c.algo+".digest", "other-digests-changed-the-transaction")
+		}
+		if d := c.digest(); d != d0 {
+			return fail(c.algo+".digest", "changed-after-other-digests-on-the-same-object")
+		}
 	}
 	n := 0
 	expect := func(site, what string, covered bool, d1 string) string {
